@@ -354,3 +354,44 @@ LS('il_allbytes_hd', [vs__], z3.Implies(z3.And(il_allbytes(vs__), IDL.is_('icons
   ind=vs__, triggers=[il_allbytes(vs__)])
 LS('il_drop_zero', [nn__, vs__], z3.Implies(nn__ <= 0, il_drop(nn__, vs__) == vs__), ind=vs__, triggers=[il_drop(nn__, vs__)])
 LS('il_take_zero', [nn__, vs__], z3.Implies(nn__ <= 0, il_take(nn__, vs__) == IDL.mk('inil')), ind=vs__, triggers=[il_take(nn__, vs__)])
+
+# --- C03: journals of published patterns (lists built front to back) -------------------------------------------------------------------
+PUBL = {}
+
+
+def LP(name, vars, stmt, **kw):
+    lm = Lemma(name, vars, stmt, **kw)
+    PUBL[name] = lm
+    return lm
+
+
+AX = z3.Function('AX', z3.IntSort(), TL)          # the journal a module (by id) publishes in the gamma phase: its imports' axioms, then its own
+flat_ax = SpecFn_like = None
+from .spec import _rec as _rec_, _def as _def_
+flat_ax = _rec_('flat_ax', IdL, TL)
+_fl = z3.Const('_fl', IdL)
+_def_(flat_ax, [_fl], z3.If(IDL.is_('inil', _fl), TLs.mk('tnil'), tl_cat(AX(IDL.get('icons', 'ihd', _fl)), flat_ax(IDL.get('icons', 'itl', _fl)))))
+tl2__ = z3.Const('tl2__', TL)
+tl3__ = z3.Const('tl3__', TL)
+_km1 = lambda f, val, vars: [[(vars[1], vars[1] - 1)]]
+LP('tl_cat_nil', [tl__], tl_cat(tl__, TLs.mk('tnil')) == tl__, ind=tl__, triggers=[tl_cat(tl__, TLs.mk('tnil'))], rewrite=True)
+LP('tl_cat_assoc', [tl__, tl2__, tl3__], tl_cat(tl_cat(tl__, tl2__), tl3__) == tl_cat(tl__, tl_cat(tl2__, tl3__)), ind=tl__,
+   triggers=[tl_cat(tl_cat(tl__, tl2__), tl3__)], rewrite=True)
+LP('tl_cat_snoc', [tl__, tl2__, tt__], tl_cat(tl__, tl_snoc(tl2__, tt__)) == tl_snoc(tl_cat(tl__, tl2__), tt__), ind=tl__,
+   triggers=[tl_cat(tl__, tl_snoc(tl2__, tt__))])
+LP('tl_taken_step', [tl__, kk], z3.Implies(z3.And(kk >= 0, kk < tl_len(tl__)), tl_taken(tl__, kk + 1) == tl_snoc(tl_taken(tl__, kk), tl_nth(tl__, kk))),
+   ind=tl__, triggers=[tl_taken(tl__, kk)], ih_extra=_km1, uses=['tl_len_nonneg'], split_depth=1)
+LP('tl_taken_all', [tl__, kk], z3.Implies(kk >= tl_len(tl__), tl_taken(tl__, kk) == tl__), ind=tl__, triggers=[tl_taken(tl__, kk)], ih_extra=_km1,
+   uses=['tl_len_nonneg'], split_depth=1)
+LP('tl_taken_zero', [tl__, kk], z3.Implies(kk <= 0, tl_taken(tl__, kk) == TLs.mk('tnil')), ind=tl__, triggers=[tl_taken(tl__, kk)])
+LP('il_take_step_nth', [nn__, vs__], z3.Implies(z3.And(nn__ >= 0, nn__ < il_len(vs__)), il_take(nn__ + 1, vs__) == il_snoc(il_take(nn__, vs__), il_nth(vs__, nn__))),
+   ind=vs__, triggers=[il_take(nn__, vs__)], ih_extra=_nm1, uses=['il_len_nonneg'], split_depth=1)
+LP('il_take_all', [nn__, vs__], z3.Implies(nn__ >= il_len(vs__), il_take(nn__, vs__) == vs__), ind=vs__, triggers=[il_take(nn__, vs__)], ih_extra=_nm1,
+   uses=['il_len_nonneg'], split_depth=1)
+LP('il_take_zero', [nn__, vs__], z3.Implies(nn__ <= 0, il_take(nn__, vs__) == IDL.mk('inil')), ind=vs__, triggers=[il_take(nn__, vs__)])
+LP('flat_ax_snoc', [vs__, kk], flat_ax(il_snoc(vs__, kk)) == tl_cat(flat_ax(vs__), AX(kk)), ind=vs__, triggers=[flat_ax(il_snoc(vs__, kk))],
+   uses=['tl_cat_nil', 'tl_cat_assoc'])
+LP('ex_stack_nth', [ptl__, kk], z3.Implies(z3.And(kk >= 0, kk < ptl_len(ptl__)), tl_nth(ex_stack(ptl__), kk) == ex_term(ptl_nth_back(ptl__, kk))), ind=ptl__,
+   triggers=[ptl_nth_back(ptl__, kk)], ih_extra=_km1, uses=['ptl_len_zero'], split_depth=1)
+for _n in ('ex_mem_len', 'tl_nth_snoc', 'ex_mem_nth', 'ex_stack_len', 'tl_len_snoc', 'tl_len_nonneg', 'il_len_nonneg', 'il_len_zero', 'ptl_len_zero'):
+    PUBL[_n] = (LIB.get(_n) or STREAM.get(_n))
